@@ -370,7 +370,7 @@ def run_input_stream(W, rec):
     get_input_stream = W["get_input_stream"]
     body = b"hello world"  # 11 bytes on the wire
     CLS = [None, "0", "5", "11", "20", "-1", "abc", "٥", " 7 ", "+5", "1_0", "99999999999", ""]
-    for cl, chunked, terminated, maxlen, safe in itertools.product(CLS, (False, True), (False, True), (None, 3, 11, 50), (True, False)):
+    for cl, chunked, terminated, maxlen, safe in itertools.product(CLS, (False, True), (False, True), (None, 0, 3, 11, 50), (True, False)):
         rec.case()
         rec.observe("input_stream_cells")
         rec.nontrivial(("is", cl, chunked, terminated, maxlen, safe))
